@@ -280,6 +280,8 @@ type checker struct {
 	classWrites int
 	configs     map[string]*schema.Case // "config" family: kind/cnt/bund -> case (neighbouring configurations for edits)
 	frames      int
+	copies      int
+	concCalls   int
 }
 
 func cfgKey(kind string, cnt, bund []int) string { return fmt.Sprintf("%s/%v/%v", kind, cnt, bund) }
@@ -483,6 +485,10 @@ func (ck *checker) checkCase(c *schema.Case) {
 	// direct edits of the operand fields between calls of Operands() / Succs()
 	if c.Fam == "config" {
 		ck.checkEdits(c)
+	}
+	// struct copies made after Operands() / Succs() of the original
+	if c.Fam == "config" || c.Fam == "labelarg" {
+		ck.checkCopy(c)
 	}
 }
 
@@ -1251,7 +1257,7 @@ func Run(tier, replay string) {
 	wg.Add(1)
 	go func() {
 		defer wg.Done()
-		for _, dev := range []string{"HideBundles", "WrapArgs", "CacheSuccs", "CacheOps", "DedupSuccs", "StickySuccs"} {
+		for _, dev := range []string{"HideBundles", "WrapArgs", "CacheSuccs", "CacheOps", "StructOps", "DedupSuccs", "StickySuccs"} {
 			r := mbt.MustTLC(mbt.TLCOpts{Spec: "Operands", Cfg: "OperandsDev_" + dev + ".cfg", Workers: 2, Timeout: 10 * time.Minute})
 			if len(r.Violated) == 0 {
 				mbt.Infra("vacuity guard: Operands.tla with deviation %s violates nothing", dev)
@@ -1282,6 +1288,8 @@ func Run(tier, replay string) {
 		ck.checkCase(c)
 	}
 	rep.TracesValidated += len(cases)
+	// concurrent read-only views (OperandsConc.tla)
+	ck.checkConcurrent(cases)
 	if len(kinds) != len(tabs.Kinds) || len(ck.reflected) != len(tabs.Kinds) {
 		mbt.Infra("only %d of %d kinds were built (%d struct types cross-checked)", len(kinds), len(tabs.Kinds), len(ck.reflected))
 	}
@@ -1323,6 +1331,7 @@ func Run(tier, replay string) {
 	rep.Extra["configurations"] = len(cases)
 	rep.Extra["slots_checked"] = ck.slotsSeen
 	rep.Extra["slot_writes_checked"] = ck.writesSeen
+	rep.Extra["struct_copies_checked"] = ck.copies
 	rep.Extra["frame_condition_writes_on_parsed_functions"] = ck.frames
 	rep.Extra["struct_types_cross_checked_by_reflection"] = len(ck.reflected)
 	rep.Extra["rauw_experiments_composed"] = len(recs)
@@ -1346,6 +1355,7 @@ func Run(tier, replay string) {
 	rep.Assumptions = []string{
 		"Schema.tla transcribes the operand structure of the LLVM 14 LangRef correctly; the reflection pass shows that it names every value-typed field of the 66 instruction structs (a missing field is exit 2)",
 		"slots are matched by identity of the marker value, not by position: a different but complete slot order is accepted",
+		"concurrent readers are run without the race detector: the unsynchronised assignment of the exported field Successors by every Succs() call is not judged, only the returned lists (on x86 stores are not reordered, so a reader that sees another reader's list sees its elements)",
 		"uses of a value nested inside a constant (constant expression, blockaddress) are not operands of the instruction in this library and are outside the quantifier (counted in rauw_skipped_use_nested_in_constant)",
 	}
 	joinModels()
@@ -1373,7 +1383,10 @@ func runReplay(rep *mbt.Report, ck *checker, path string) {
 			var cr caseRec
 			if err := mbt.ReadJSON(tmp.Name(), &cr); err == nil && cr.Case != nil {
 				ck.checkCase(cr.Case)
+				ck.concurrentCase(cr.Case)
 			}
+		} else if kind, ok := f.Case["kind"].(string); ok && f.Case["targets"] != nil {
+			ck.concurrentBig(kind)
 		} else if src, ok := f.Case["src"].(string); ok {
 			rep.Note("replay of a corpus experiment: source %s is re-run by the full check (corpus is regenerated from the seed)", src)
 			rep.Count("replay:"+src, true)
